@@ -11,8 +11,13 @@ def run_execution(binary, seed, idx):
     cfg = {'nodes': nodes, 'threshold': rng.choice([1, 2, 2, 3, 4]), 'delay_seed': rng.getrandbits(40) | 1 if rng.random() < 0.8 else 0,
            'lag_us': rng.choice([0, 200, 2000, 20000]), 'backend': rng.choice(['fd', 'mmap']), 'producers': rng.randint(1, 3), 'consumers': rng.randint(0, 2),
            'puts': rng.randint(6, 30), 'monitor_ms': rng.choice([10, 50, 1000]), 'monitor': rng.random() < 0.5}
-    if rng.random() < 0.2:
-        cfg['threshold'] = 1000000
+    fam = rng.random()
+    if fam < 0.2:
+        cfg['threshold'] = 1000000          # no rollover: every configuration is fully armed
+    elif fam < 0.45:
+        # the only rollover family without a second writer / sealing proposer / lagging follower: fully armed
+        cfg.update(nodes=1, producers=1, monitor=False)
+        nodes = 1
     d = fresh_dir('dwx')
     out = {'cfg': cfg, 'hist': [], 'events': [], 'nodes': None, 'error': None}
     try:
